@@ -2613,9 +2613,9 @@ def run(ctx):
         "schematic), nested binders with equal names, a rule's left side under the binder; for abs/top/bottom/top_sweep/sub/"
         "beta_norm conversions, sort_conj/sort_disj and int_norm_conv; judged by the oracle and (combinators) by the Lean model, whose "
         "codec opens binders with names of its own.")
-    ok = ctx.lean_props(["Holpy.C10.Props", "Holpy.C10.PropsPoly", "Holpy.C10.PropsPolySem", "Holpy.C10.PropsNatPoly"], exes=[EXE])
+    ok = ctx.lean_props(["Holpy.C10.Props", "Holpy.C10.PropsPoly", "Holpy.C10.PropsPolySem", "Holpy.C10.PropsNatPoly", "Holpy.C10.PropsInt"], exes=[EXE])
     if ctx.tier == "thorough" and ok:
-        ctx.lean_check_modules(["Holpy.C10.Props", "Holpy.C10.PropsPoly", "Holpy.C10.PropsPolySem", "Holpy.C10.PropsNatPoly"])
+        ctx.lean_check_modules(["Holpy.C10.Props", "Holpy.C10.PropsPoly", "Holpy.C10.PropsPolySem", "Holpy.C10.PropsNatPoly", "Holpy.C10.PropsInt"])
     ctx.coverage["trusted_base"] += [
         "harness/props/c10.py: generators, term codec, ranking of members/atoms by the implementation's own term_ord.fast_compare",
         "kernel.theory.check_proof is the judge of 'checker-accepted' (check_level=0: every macro with an expansion is expanded)",
@@ -2786,16 +2786,24 @@ MANIFEST = {
             "forms, normalising a normal form changes nothing' is a theorem about the model, and the model is compared with the "
             "real convert_to_poly / from_poly / real_norm_conv on every expression of the cancellation generator (monomial LIST: "
             "order, factors, powers, exact coefficients). "
-            "(5) The nat Conv normaliser data.nat.norm_full (the one nat_norm uses): norm_sound, norm_idem_partial, "
-            "norm_canonical_partial only -- its canonicity under assoc/comm/distrib and isNF(norm t) are NOT proved (it does not go "
-            "through util/poly.py); the integer Conv normaliser (simp_full / int_norm_conv) is NOT modelled. Both are compared "
-            "against the independent exact-rational evaluator on cancellation-rich pairs every run, as are the decisions of "
-            "nat_norm, real_norm, int_eq_macro and int_norm_eq; proplogic.norm_full / sort_conj / sort_disj on member sets (oracle "
-            "only). Fast evaluation against checked proof term for every Conv class overriding eval and for nat_norm ('eval "
-            "succeeds, proof term raises' is a violation). Every Conv subclass of the six modules is run on generated terms of "
-            "its domain and judged by the real proof checker; binder-traversing conversions on de Bruijn inputs with clashing names.",
-    "note": "poly_canonical is for the inductively defined congruence; the semantic form (equal value under every valuation over an "
-            "infinite integral domain => identical lists) is NOT proved. Outside the modelled fragment: of_nat, division by "
+            "(5) Semantic canonicity: poly_canonical_semantic -- over an infinite integral domain (Z, Q) two expressions have the "
+            "IDENTICAL convert_to_poly list iff they have the same value under every valuation (via MvPolynomial.funext); "
+            "poly_zero_of_eval_zero. "
+            "(6) The nat Conv normaliser data.nat.norm_full (the one nat_norm uses; not built on util/poly.py): norm_sound, "
+            "norm_sound_int, norm_full_poly_invariant (the normal form has the identical polynomial as the term), "
+            "norm_full_eq_poly_partial (same normal form => same polynomial), norm_idem_partial, norm_canonical_partial. NOT "
+            "proved: same polynomial => same normal form (canonicity) and isNF(norm t). Truncated subtraction, powers and "
+            "applications are atoms of this normaliser. "
+            "(7) The integer Conv normaliser (simp_full, int_norm_conv, int_norm_eq) is modelled (IntModel.lean) and compared tree "
+            "for tree with the real conversions' right-hand sides: int_norm_sound (value preserved in Z), int_norm_eq_sound (the "
+            "returned lhs = 0 is equivalent to a = b), int_norm_canonical_partial (normal form has the polynomial of the term; same "
+            "normal form => same polynomial). NOT proved: same polynomial => same normal form. "
+            "For (6) and (7) canonicity is compared against the independent exact-rational evaluator on cancellation-rich pairs "
+            "every run, as are the decisions of nat_norm, real_norm, int_eq_macro and int_norm_eq; proplogic.norm_full / sort_conj / "
+            "sort_disj on member sets (oracle only). Fast evaluation against checked proof term for every Conv class overriding "
+            "eval and for nat_norm. Every Conv subclass of the six modules is run on generated terms of its domain and judged by "
+            "the real proof checker; binder-traversing conversions on de Bruijn inputs with clashing names.",
+    "note": "Outside the modelled fragment: of_nat, division by "
             "non-constants, real powers, nat truncated subtraction (atoms). int: from_poly writes powers that int's convert_to_poly "
             "reads as atoms, so from_poly o convert_to_poly is only claimed stable for reals (and ints without power atoms). "
             "Atoms are ranks under term_ord.fast_compare (C03) -- the model's order on atoms is the order on ranks. "
